@@ -89,6 +89,7 @@ impl Decode for Range<u32> {
     @sig
         ensures
             res is Ok ==> res->Ok_0.start <= res->Ok_0.end,
+            res is Ok ==> res->Ok_0.enc_ok(),
             res is Ok ==> final(decoder).rest().len() + 2 <= old(decoder).rest().len(),
             D::v1() ==> read_post(old(decoder).rest(), final(decoder).rest(), res, dec_range(old(decoder).rest())),
     @start
@@ -130,6 +131,7 @@ impl Decode for IdRanges<()> {
         ensures
             res is Ok ==> 2 * res->Ok_0@.len() < old(decoder).rest().len() - final(decoder).rest().len(),
             res is Ok ==> forall|i: int| 0 <= i < res->Ok_0@.len() ==> (#[trigger] res->Ok_0@[i]).0.start <= res->Ok_0@[i].0.end,
+            res is Ok ==> res->Ok_0.enc_ok(),
             D::v1() ==> match dec_ranges(old(decoder).rest()) {
                 Some((v, k)) => res is Ok && res->Ok_0@ == v && k <= old(decoder).rest().len() && final(decoder).rest() == old(decoder).rest().skip(k as int),
                 None => res is Err,
@@ -349,6 +351,7 @@ impl Decode for IdSet {
         ensures
             res is Ok ==> 2 * res->Ok_0@.len() < old(decoder).rest().len() - final(decoder).rest().len(),
             res is Ok ==> ranges_ordered(res->Ok_0@),
+            res is Ok ==> res->Ok_0.enc_ok(),
             D::v1() ==> match dec_idset(old(decoder).rest()) {
                 Some((m, k)) => res is Ok && res->Ok_0@ == m && k <= old(decoder).rest().len() && final(decoder).rest() == old(decoder).rest().skip(k as int),
                 None => res is Err,
